@@ -109,7 +109,8 @@ def c13(tier):
     asts = export_asts(chk, thorough)
     trace = chk.wdir("parse.ndjson")
     args = ["--mode", "parse", "--asts", asts, "--seed", s, "--n", 12000 if thorough else 1500,
-            "--trunc", 60 if thorough else 8, "--soup", 12000 if thorough else 1500]
+            "--trunc", 60 if thorough else 8, "--soup", 12000 if thorough else 1500,
+            "--exhaustive-every", 4 if thorough else 40]
     summ = run_zv_idl(chk, args, trace)
     rejected, _ = validate_cases(chk, STRICT, trace, "parse", args)
     chk.evaluations = summ["cases"]
